@@ -49,14 +49,21 @@ def gen_mux(rnd, aw, dw, tag):
     al = rnd.choice([0, 0, 0, 1])
     ops = []
     n = rnd.choice([0, 1, 1, 2, 2, 3, 4])
+    many = aw >= 4 and rnd.random() < 0.2       # 7-15 small readable registers: wide fan-ins into one shadow chunk
+    if many:
+        n = rnd.randint(7, min(15, 1 << aw))
     for i in range(n):
         w = rnd.choice([rnd.randint(1, 2 * dw + 3), dw, dw + 1, 1, 2 * dw, 0 if rnd.random() < 0.3 else 3,
                         rnd.randint(2 * dw + 1, 4 * dw)])
         acc = rnd.choice(["r", "w", "rw", "rw", "rw"])
+        if many:
+            w = rnd.choice([dw, dw, dw - 1, 1]); acc = rnd.choice(["r", "rw", "rw"])
         need = max(1, (w + dw - 1) // dw)
         size = need + rnd.choice([0, 0, 0, 1])
         addr = None
-        if al == 0 and rnd.random() < 0.3:
+        if many:
+            size = need                      # packed back to back: they all land, and share shadow chunks
+        elif al == 0 and rnd.random() < 0.3:
             addr = rnd.randrange(1 << aw)
         elif rnd.random() < 0.15:
             addr = (rnd.randrange(1 << aw) >> al) << al
@@ -65,7 +72,8 @@ def gen_mux(rnd, aw, dw, tag):
         if rnd.random() < 0.2:
             ops.append(["align", rnd.randint(0, aw)])
         ops.append(["add", w, acc, nm, size, addr, alignment])
-    return {"t": "mux", "aw": aw, "dw": dw, "al": al, "ov": rnd.choice([None, None, 0, 1, 2]), "ops": ops}
+    ov = rnd.choice([None, None, 0, 1, 2])
+    return {"t": "mux", "aw": aw, "dw": dw, "al": al, "ov": None if many else ov, "ops": ops}
 
 
 def gen_regs(rnd, aw, dw, tag):
